@@ -375,7 +375,7 @@ func shortVals(l []interface{}) []string {
 func C16(tier string) int {
 	res := NewResult("C16", tier, "exploration")
 	cases := c16cases(res.Thorough())
-	res.Rule = fmt.Sprintf("Update: stored object with each subset of {name, content, summary, an unknown member} x update object assigning each member in {absent, new value, null}; two objects with every pair of independent assignments (81 x 81) and three-object triples; Delete: 1..%d objects of 3 types with/without published/updated, IRI/embedded, model clock; Add/Remove: every sequence of 1..%d objects (IRI/embedded) x every sequence of distinct targets over {owned Collection with duplicates, owned OrderedCollection with duplicates, foreign}, the stored collections spelling their entries as IRIs or as a mixture of IRIs, embedded objects and a Link named by href; Like and Block with the same object sequences; each type with object/target absent or empty; Social-only and both protocols; every Like / Block and every third other request again with application hooks wrapped around the default callbacks; %d base requests; oracle: a reference model on JSON (merge + null deletion, Tombstone fields, collection edits on owned targets only, liked front insertion, Block undelivered, 400 and unchanged state for missing members)", map[bool]int{false: 2, true: 3}[res.Thorough()], map[bool]int{false: 2, true: 3}[res.Thorough()], len(cases))
+	res.Rule = fmt.Sprintf("Update: stored object with each subset of {name, content, summary, an unknown member} x update object assigning each member in {absent, new value, null}; two objects with every pair of independent assignments (81 x 81) and three-object triples; Delete: 1..%d objects of 3 types with/without published/updated, IRI/embedded, model clock; Add/Remove: every sequence of 1..%d objects (IRI/embedded) x every sequence of distinct targets over {owned Collection with duplicates, owned OrderedCollection with duplicates, foreign}, the stored collections spelling their entries as IRIs or as a mixture of IRIs, embedded objects and a Link named by href; Like and Block with the same object sequences; each type with object/target absent or empty; Social-only and both protocols; every Like / Block and every third other request again with application hooks wrapped around the default callbacks; %d base requests; plus every ordered pair (thorough: a third of the triples) of single-object Add / Remove / Like requests as a history on ONE application, the reference model applied step by step; oracle: a reference model on JSON (merge + null deletion, Tombstone fields, collection edits on owned targets only, liked front insertion, Block undelivered, 400 and unchanged state for missing members)", map[bool]int{false: 2, true: 3}[res.Thorough()], map[bool]int{false: 2, true: 3}[res.Thorough()], len(cases))
 	res.Assumptions = []string{"JSON nulls are looked for inside the activity's object (ActivityPub 6.3.1), which is what the statement's wording names", "the stored copy of the activity and the outbox entry are C05's",
 		"one collection named twice as target is excluded here (C09's known finding)"}
 	var mu sync.Mutex
@@ -504,6 +504,75 @@ func C16(tier string) int {
 			res.Violate(v.key, v.what, v.rep)
 		}
 	})
+	// ---- histories: sequences of 2 (thorough: also 3) Add / Remove / Like requests on ONE application;
+	// the reference model is applied request by request and compared after every step (the effect of a
+	// request must not depend on which requests came before) ----
+	var hist []c16case
+	for _, c := range cases {
+		if (c.family == "add" || c.family == "remove" || c.family == "like") && c.kind == ap.Both && c.want == "201" && !strings.Contains(c.name, "stored-entries") {
+			if objs := asList(c.body["object"]); len(objs) == 1 {
+				hist = append(hist, c)
+			}
+		}
+	}
+	nHist := 0
+	runHist := func(seq []c16case) {
+		a := (&Scenario{Kind: ap.Both, Tweak: func(a *ap.App) {
+			for _, c := range seq {
+				if c.tweak != nil {
+					c.tweak(a) // Add / Remove / Like cases install the same target collections and liked collection
+				}
+			}
+		}}).World()
+		exp := RefOf(a)
+		var names []string
+		for step, c := range seq {
+			names = append(names, c.name)
+			c.model(exp)
+			if c.family == "like" {
+				doc := exp.Store[Alice+"/liked"]
+				l := asList(doc["items"])
+				for _, o := range asList(c.body["object"]) {
+					l = append([]interface{}{idOf(deepCopy(o))}, l...)
+				}
+				setOrDelete(doc, "items", fromList(l))
+			}
+			sc := &Scenario{Name: "c16/history/" + strings.Join(names, " > "), Kind: ap.Both, Entry: "PostOutbox", URL: outbox(Alice), Body: c.body}
+			out := sc.On(a, nil)
+			if out.Panic != nil || statusOf(out) != "[201]" {
+				if out.Panic == nil {
+					res.Violate("history|status", fmt.Sprintf("%s: request %d answered %s (err=%v), alone it is answered 201", sc.Name, step+1, statusOf(out), out.Err), M{"check": "C16", "part": "history", "requests": names})
+				}
+				return
+			}
+			for _, d := range exp.Diff(a, nil) {
+				if strings.Contains(d, "/id/r") || strings.HasPrefix(d, "outbox ") {
+					continue
+				}
+				res.Violate("history|state|"+diffClass(d)+"|after-"+seq[max(step-1, 0)].family, fmt.Sprintf("%s: after request %d: %s", sc.Name, step+1, d), M{"check": "C16", "part": "history", "requests": names})
+				return
+			}
+		}
+		nHist++
+	}
+	for _, c1 := range hist {
+		for _, c2 := range hist {
+			runHist([]c16case{c1, c2})
+		}
+	}
+	if res.Thorough() {
+		for i, c1 := range hist {
+			for j, c2 := range hist {
+				for k, c3 := range hist {
+					if (i+j+k)%3 == 0 {
+						runHist([]c16case{c1, c2, c3})
+					}
+				}
+			}
+		}
+	}
+	res.Evaluations += nHist
+	res.Extra["request_histories"] = nHist
 	for _, i := range []int{1, len(cases) / 3, len(cases) / 2, len(cases) - 10} {
 		res.Sample(M{"case": cases[i].name, "body": cases[i].body})
 	}
